@@ -57,6 +57,7 @@ struct Eval {
     pass_claims: usize,
     /// (id, message, start, end of the primary label) of every pass report
     findings: Vec<(String, String, usize, usize)>,
+    division_claims: usize,
 }
 
 fn count_value_nodes(cfg: &Cfg) -> usize {
@@ -175,9 +176,36 @@ fn evaluate(path: &std::path::Path, prelude: &str, src: &str, curve_idx: usize, 
     }
     // a `<--` with a division that draws no CS0015 report, in a definition without any IsZero
     // instance, can only have been let through because its divisor is taken for a constant
-    let has_iszero = cfg.iter().any(|bb| bb.iter().any(|s| format!("{s:?}").contains("IsZero")));
+    // (an IsZero instance can only vouch for a divisor that is its input: a divisor that
+    // mentions a name no IsZero input mentions has no such voucher)
+    let mut iszero_components: BTreeSet<String> = BTreeSet::new();
+    let mut iszero_input_names: BTreeSet<String> = BTreeSet::new();
+    for bb in cfg.iter() {
+        for s in bb.iter() {
+            if let program_structure::ir::Statement::Substitution { var, rhe, .. } = s {
+                let inner = match rhe {
+                    program_structure::ir::Expression::Update { rhe: inner, .. } => inner.as_ref(),
+                    other => other,
+                };
+                if let program_structure::ir::Expression::Call { name, .. } = inner {
+                    if name == "IsZero" {
+                        iszero_components.insert(var.name().clone());
+                    }
+                }
+            }
+        }
+    }
+    for bb in cfg.iter() {
+        for s in bb.iter() {
+            if let program_structure::ir::Statement::Substitution { var, rhe: program_structure::ir::Expression::Update { rhe: inner, .. }, .. } = s {
+                if iszero_components.contains(var.name()) {
+                    iszero_input_names.extend(expr_names(inner));
+                }
+            }
+        }
+    }
     let mut division_claims = 0;
-    if !has_iszero {
+    {
         for bb in cfg.iter() {
             for s in bb.iter() {
                 if let program_structure::ir::Statement::Substitution { op: program_structure::ir::AssignOp::AssignSignal, rhe, .. } = s {
@@ -187,7 +215,9 @@ fn evaluate(path: &std::path::Path, prelude: &str, src: &str, curve_idx: usize, 
                     };
                     if let program_structure::ir::Expression::InfixOp { infix_op: program_structure::ir::ExpressionInfixOpcode::Div, rhe: divisor, .. } = inner {
                         let reported = pass_reports.iter().any(|r| r.id() == "CS0015" && r.primary().first().map(|l| l.range == divisor.meta().file_location()).unwrap_or(false));
-                        if !reported {
+                        let names = expr_names(divisor);
+                        let vouched = !iszero_components.is_empty() && names.iter().all(|n| iszero_input_names.contains(n));
+                        if !reported && !vouched {
                             quadratic_claims.push((crate::interp::node_id(divisor), 0, format!("divisor of a `<--` division that draws no warning (taken for a constant): {divisor:?}")));
                             division_claims += 1;
                         }
@@ -197,7 +227,7 @@ fn evaluate(path: &std::path::Path, prelude: &str, src: &str, curve_idx: usize, 
         }
     }
     e.pass_claims = quadratic_claims.len() + always_claims.len() + safe_size_claims.len();
-    let _ = division_claims;
+    e.division_claims = division_claims;
     // (2) constants
     let p: BigInt = gen::PRIMES[curve_idx].parse().unwrap();
     let field = Field::new(&p);
@@ -266,6 +296,49 @@ fn evaluate(path: &std::path::Path, prelude: &str, src: &str, curve_idx: usize, 
         }
     }
     e
+}
+
+/// Base names of the variables, signals and components an expression mentions.
+fn expr_names(e: &program_structure::ir::Expression) -> BTreeSet<String> {
+    use program_structure::ir::{AccessType, Expression::*};
+    let mut out = BTreeSet::new();
+    fn walk(e: &program_structure::ir::Expression, out: &mut BTreeSet<String>) {
+        match e {
+            Variable { name, .. } => {
+                out.insert(name.name().clone());
+            }
+            Access { var, access, .. } | Update { var, access, .. } => {
+                out.insert(var.name().clone());
+                for a in access {
+                    if let AccessType::ArrayAccess(i) = a {
+                        walk(i, out);
+                    }
+                }
+                if let Update { rhe, .. } = e {
+                    walk(rhe, out);
+                }
+            }
+            Phi { args, .. } => {
+                for a in args {
+                    out.insert(a.name().clone());
+                }
+            }
+            Number(_, _) => {}
+            PrefixOp { rhe, .. } => walk(rhe, out),
+            InfixOp { lhe, rhe, .. } => {
+                walk(lhe, out);
+                walk(rhe, out);
+            }
+            SwitchOp { cond, if_true, if_false, .. } => {
+                walk(cond, out);
+                walk(if_true, out);
+                walk(if_false, out);
+            }
+            Call { args, .. } | InlineArray { values: args, .. } => args.iter().for_each(|a| walk(a, out)),
+        }
+    }
+    walk(e, &mut out);
+    out
 }
 
 /// What a cut may do to the findings of the passes: nothing to those that use no fact,
@@ -344,6 +417,7 @@ struct DefRes {
     facts_lost_by_cut: usize,
     pass_claims: usize,
     relations_judged: usize,
+    division_claims: usize,
 }
 
 #[derive(Clone)]
@@ -359,7 +433,7 @@ fn one(scratch: &std::path::Path, seed: u64, i: usize, keys: usize, pairs: usize
     let path = scratch.join(format!("def{i}.circom"));
     let (src, curve_idx) = gen_source(seed, i);
     let prelude = gen_prelude(seed, i);
-    let mut res = DefRes { evals: 0, usable: false, reads: 0, cut_points: 0, pair_cuts: 0, stalls_fired: 0, backsteps_fired: 0, wall_reads: 0, value_claims: 0, degree_claims: 0, violation: None, sim_ns: 0, facts_lost_by_cut: 0, pass_claims: 0, relations_judged: 0 };
+    let mut res = DefRes { evals: 0, usable: false, reads: 0, cut_points: 0, pair_cuts: 0, stalls_fired: 0, backsteps_fired: 0, wall_reads: 0, value_claims: 0, degree_claims: 0, violation: None, sim_ns: 0, facts_lost_by_cut: 0, pass_claims: 0, relations_judged: 0, division_claims: 0 };
     let mut rk = Rng::new(seed).sub_n("C20-sched", i as u64);
     for _ki in 0..keys {
         let key = rk.bytes16();
@@ -444,6 +518,7 @@ fn one(scratch: &std::path::Path, seed: u64, i: usize, keys: usize, pairs: usize
                     res.facts_lost_by_cut += 1;
                 }
                 res.pass_claims += e.pass_claims;
+                res.division_claims += e.division_claims;
             }
             if res.violation.is_some() {
                 return res;
@@ -569,6 +644,7 @@ pub fn run(env: &Env) -> i32 {
         &mut cov,
         &[
             ("cut run compared with the uncut run (findings of the passes)", results.iter().map(|r| r.relations_judged).sum::<usize>()),
+            ("division without warning judged as a constant-divisor claim (cut runs)", results.iter().map(|r| r.division_claims).sum::<usize>()),
             ("time box fired", results.iter().map(|r| r.stalls_fired).sum::<usize>()),
             ("a cut left fewer facts than the fixpoint", results.iter().map(|r| r.facts_lost_by_cut).sum::<usize>()),
             ("constant claim judged", results.iter().map(|r| r.value_claims).sum::<usize>()),
